@@ -58,8 +58,9 @@ def prange_disjoint(prog, f):
         for n in ast.walk(loop):
             if isinstance(n, ast.Assign):
                 for t in n.targets:
-                    if isinstance(t, ast.Name):
-                        body_locals.add(t.id)
+                    for x in (t.elts if isinstance(t, (ast.Tuple, ast.List)) else [t]):
+                        if isinstance(x, ast.Name):
+                            body_locals.add(x.id)
             elif isinstance(n, ast.For) and isinstance(n.target, ast.Name) and n is not loop:
                 body_locals.add(n.target.id)
         outer_locals = set()
@@ -74,7 +75,9 @@ def prange_disjoint(prog, f):
         stores = []
         for n in ast.walk(loop):
             if isinstance(n, ast.Assign):
-                stores += [(t, n) for t in n.targets]
+                for t in n.targets:
+                    # `a, b = helper(...)`: one store per element
+                    stores += [(x, n) for x in (t.elts if isinstance(t, (ast.Tuple, ast.List)) else [t])]
             elif isinstance(n, ast.AugAssign):
                 stores.append((n.target, n))
         for t, st in stores:
